@@ -210,19 +210,50 @@ def check_scratch_lines(ctx, parsers):
         raise AnalysisError('no reparse function writes into a scratch line list before parsing (anchor vanished)')
     ctx.extra['scratch_line_list_params'] = {k: sorted(v) for k, v in scribbled.items()}
 
-    def live(fi, e, depth=0):
+    from ..cfg import solve
+
+    def reaching(fi, name, call):
+        """Value expressions bound to local `name` that reach the statement holding `call` (None for a binding whose value is not an expression:
+        loop target, unpacking).  `copy_lines = root._lines` followed by `copy_lines = copy_lines[:]` reaches the call as the copy only."""
+        cfg = CFG(fi.node)
+
+        def transfer(node, st):
+            cur = st
+            for x in subnodes(cfg, node):
+                if isinstance(x, ast.NamedExpr) and x.target.id == name:
+                    cur = frozenset([x.value])
+            if node.kind == 'stmt' and isinstance(node.ast, (ast.Assign, ast.AnnAssign, ast.AugAssign)):
+                tgs = node.ast.targets if isinstance(node.ast, ast.Assign) else [node.ast.target]
+                for t in tgs:
+                    if isinstance(t, ast.Name) and t.id == name:
+                        cur = frozenset([node.ast.value if isinstance(node.ast, ast.Assign) or getattr(node.ast, 'value', None) is not None and
+                                         not isinstance(node.ast, ast.AugAssign) else None])
+                    elif any(isinstance(y, ast.Name) and y.id == name and isinstance(y.ctx, ast.Store) for y in ast.walk(t)):
+                        cur = frozenset([None])
+            elif node.kind == 'iter' and any(isinstance(y, ast.Name) and y.id == name for y in ast.walk(node.ast.target)):
+                cur = frozenset([None])
+            return cur
+        ins = solve(cfg, frozenset(), transfer, lambda a, b: a | b)
+        for nd in cfg.nodes:
+            if any(x is call for x in subnodes(cfg, nd)):
+                return ins.get(nd.id) or frozenset()
+        return frozenset()
+
+    def live(fi, e, call=None, depth=0):
         """Does expression `e` (in function fi) possibly denote the live line list of a tree?"""
         if isinstance(e, ast.NamedExpr):
-            return live(fi, e.value, depth)
+            return live(fi, e.value, call, depth)
         if isinstance(e, ast.Attribute):
             return e.attr in ('_lines', 'lines')
         if isinstance(e, ast.IfExp):
-            return live(fi, e.body, depth) or live(fi, e.orelse, depth)
+            return live(fi, e.body, call, depth) or live(fi, e.orelse, call, depth)
         if isinstance(e, ast.Name) and depth < 3:
+            if call is not None and depth == 0:
+                return any(v is not None and live(fi, v, None, depth + 1) for v in reaching(fi, e.id, call))
             for x in walk_no_nested(fi.node):
-                if isinstance(x, ast.Assign) and any(isinstance(t, ast.Name) and t.id == e.id for t in x.targets) and live(fi, x.value, depth + 1):
+                if isinstance(x, ast.Assign) and any(isinstance(t, ast.Name) and t.id == e.id for t in x.targets) and live(fi, x.value, None, depth + 1):
                     return True
-                if isinstance(x, ast.NamedExpr) and x.target.id == e.id and live(fi, x.value, depth + 1):
+                if isinstance(x, ast.NamedExpr) and x.target.id == e.id and live(fi, x.value, None, depth + 1):
                     return True
         return False
     n = 0
@@ -247,7 +278,7 @@ def check_scratch_lines(ctx, parsers):
                     if isinstance(a, ast.Name) and a.id in scribbled.get(fi.name, {}):
                         continue                  # own parameter in the same role: checked at this function's call sites
                     n += 1
-                    ctx.check('R10.4', not live(fi, a), fi.module, fi.qualname, f'{call_name(c)}(... {q}={norm(a, 40)} ...)',
+                    ctx.check('R10.4', not live(fi, a, c), fi.module, fi.qualname, f'{call_name(c)}(... {q}={norm(a, 40)} ...)',
                               f'`{norm(a, 40)}` may be the live line list of a tree, and {call_name(c)}() has its parameter `{q}` {why}: text that does '
                               f'not parse would stay spliced into the source while tree and positions are the old ones', c.lineno,
                               sample={'function': fi.key, 'call': norm(c, 90)})
